@@ -57,6 +57,31 @@ def check(ctx, key, case, fn, a, expected, atol=1e-15, exact32=False):
         if not np.allclose(back(r), expected, rtol=0, atol=atol, equal_nan=True):
             ctx.violation(f"{key}/argument-form/{label}/values", dict(case, form=label), np.asarray(expected).tolist(), back(r).tolist(),
                           note=f"a {label} array argument gives other values than the same values in a plain vector")
+    check_long(ctx, key, case, fn, a, expected, atol)
+
+
+LONG = 4100     # longer than any power-of-two chunk up to 4096
+
+
+def check_long(ctx, key, case, fn, a, expected, atol=1e-15):
+    """the same values repeated into a vector of more than 4096 elements: every repetition gives the same values"""
+    a = np.asarray(a, dtype=float)
+    if len(a) == 0:
+        return
+    k = -(-LONG // len(a))
+    arg = np.tile(a, k)
+    ctx.count()
+    try:
+        r = np.asarray(fn(arg), dtype=float)
+    except Exception as ex:
+        ctx.violation(f"{key}/argument-form/long-vector/raises-{type(ex).__name__}", dict(case, form="long-vector", length=len(arg)), "elementwise values", f"{type(ex).__name__}: {ex}")
+        return
+    if r.shape != arg.shape:
+        ctx.violation(f"{key}/argument-form/long-vector/shape", dict(case, form="long-vector", length=len(arg)), list(arg.shape), list(r.shape))
+    elif not np.allclose(r.reshape(k, len(a)), np.asarray(expected, dtype=float)[None, :], rtol=0, atol=atol, equal_nan=True):
+        bad = int(np.flatnonzero(~np.isclose(r, np.tile(np.asarray(expected, dtype=float), k), rtol=0, atol=atol, equal_nan=True))[0])
+        ctx.violation(f"{key}/argument-form/long-vector/values", dict(case, form="long-vector", length=len(arg), index=bad), float(np.tile(np.asarray(expected, dtype=float), k)[bad]), float(r[bad]),
+                      note=f"in a vector of {len(arg)} elements the value at index {bad} differs from the value of that element alone")
 
 
 def check_int(ctx, key, case, fn, a, atol=1e-15):
